@@ -33,6 +33,13 @@ def gen_scenario(rng, *, family='well', cyclic=False, init_env=False,
     'mixed'.  cyclic / init_env are only used by C03.'''
     ntask = rng.choice((1, 2, 3, 3, 4, 4, 5, 5, 6, 7, 8, max_tasks))
     shape = rng.choice(('random', 'random', 'chain', 'diamond', 'fan'))
+    wide = family == 'wide' and rng.random() < 0.012
+    if family == 'wide' and not wide:
+        family = 'well'
+    if wide:
+        # one root and more dependants, all released at once, than any
+        # sensible bound on a queue or a pool
+        ntask, shape, family = rng.choice((1100, 1500)), 'wide', 'well'
     p_edge = rng.choice((0.15, 0.3, 0.5, 0.8))
     p_soft = rng.choice((0.0, 0.2, 0.5, 1.0))
     p_fail = rng.choice((0.0, 0.1, 0.3, 0.6))
@@ -41,6 +48,8 @@ def gen_scenario(rng, *, family='well', cyclic=False, init_env=False,
         hard, soft = [], []
         if shape == 'chain':
             cand = [i - 1] if i else []
+        elif shape == 'wide':
+            cand = [0] if i else []
         elif shape == 'diamond':
             if i == 0:
                 cand = []
@@ -79,6 +88,7 @@ def gen_scenario(rng, *, family='well', cyclic=False, init_env=False,
             'shared': rng.random() < 0.3,
             'echo_status': family == 'echo' and rng.random() < 0.5,
             'hints': family in ('well', 'echo') and rng.random() < 0.15,
+            'fragile_eq': rng.random() < 0.1,
         })
     scn = {
         'kind': 'sched',
@@ -89,10 +99,20 @@ def gen_scenario(rng, *, family='well', cyclic=False, init_env=False,
         'linemode': rng.random() < 0.2,
         'init_env': {},
     }
+    if wide:
+        for tsk in tasks:
+            tsk.update(outcome='ok', dur=0, shared=False, kind='task',
+                       hints=False, name=tsk['name'].replace(' ', '')
+                       .replace('/x', ''))
+            tsk['soft'] = []
+            tsk['hard'] = [0] if tsk is not tasks[0] else []
+        scn.update(workers=rng.choice((1, 2, 3)), linemode=False, wide=True)
     # how the graphs are handed to the scheduler: node by node, from
     # dependency dictionaries, from the tasks' own dependency sets (the way
     # the run command builds them), or with a sub-graph embedded as one node
     scn['graph_api'] = rng.choice(('add', 'add', 'dict', 'tasks', 'nested'))
+    if wide:
+        scn['graph_api'] = 'add'
     if cyclic and scn['graph_api'] == 'nested':
         scn['graph_api'] = 'add'
     if cyclic and scn['graph_api'] == 'tasks' and _STATE.get('spinning'):
@@ -104,12 +124,13 @@ def gen_scenario(rng, *, family='well', cyclic=False, init_env=False,
             make_group(rng, scn)
         else:
             scn['graph_api'] = 'add'
-    if not init_env and rng.random() < 0.06:
+    if not init_env and not wide and rng.random() < 0.06:
         # everything left to the defaults: backend (10 workers), environment,
         # configuration, no soft graph when there is no soft edge
         scn['defaults'] = True
         scn['workers'] = 10
-    if family in ('well', 'echo') and not cyclic and rng.random() < 0.08:
+    if family in ('well', 'echo') and not cyclic and not wide and \
+            rng.random() < 0.08:
         # somebody else schedules another, unrelated graph on a backend of his
         # own, in another thread, at the same time: two backends share nothing
         scn['second_master'] = rng.choice((1, 2, 3))
@@ -480,6 +501,9 @@ def build_tasks(scn, mods, recorder, run_tag='r', run_no=0, state=None):
             return rank[self.idx]
 
         def __eq__(self, other):
+            if specs[self.idx].get('fragile_eq'):
+                # a user's task class whose equality only knows tasks
+                return self.idx == other.idx
             return self is other
 
         def do(self, env, config):
@@ -494,6 +518,9 @@ def build_tasks(scn, mods, recorder, run_tag='r', run_no=0, state=None):
             return rank[self.idx]
 
         def __eq__(self, other):
+            if specs[self.idx].get('fragile_eq'):
+                # a user's task class whose equality only knows tasks
+                return self.idx == other.idx
             return self is other
 
         def __deepcopy__(self, memo):
@@ -605,6 +632,8 @@ class RunResult:
 
 
 def run_scenario(scn, chooser, *, max_steps=200000):
+    if scn.get('wide'):
+        max_steps = 4000000
     mods = load.load_sim()
     recorder = Recorder()
     lf = load.line_files(mods) if scn.get('linemode') else None
@@ -1004,6 +1033,7 @@ def shrink_candidates(scn):
                 yield new
         for field, plain in (('outcome', 'ok'), ('dur', 0), ('shared', False),
                              ('echo_status', False), ('hints', False),
+                             ('fragile_eq', False),
                              ('kind', 'task'), ('variant', 0),
                              ('name', 't%d' % i)):
             if tsk.get(field) != plain:
@@ -1071,6 +1101,8 @@ def sched_facts(scn, res):
         facts['scenarios-cyclic'] = 1
     facts['workers:%d' % scn['workers']] = 1
     facts['graphs-built-via:%s' % scn.get('graph_api', 'add')] = 1
+    if scn.get('wide'):
+        facts['scenarios-with-more-than-1000-tasks-ready-at-once'] = 1
     if scn.get('second_master'):
         facts['scenarios-with-a-second-master-on-its-own-backend'] = 1
     if scn.get('built_twice'):
